@@ -327,12 +327,20 @@ def run(ctx, rep):
         rec_ok = False
         if ok:
             a = calls[0].args[0]
-            rec_ok = isinstance(a, ast.Call) and isinstance(a.func, ast.Name) and a.func.id == fi.name and \
+            if isinstance(a, ast.Name):
+                # a local bound once, inside the loop, to the converted sub-element
+                defs = [x.value for x in ast.walk(lp) if isinstance(x, ast.Assign) and len(x.targets) == 1 and isinstance(x.targets[0], ast.Name) and x.targets[0].id == a.id]
+                if len(defs) == 1:
+                    a = defs[0]
+            rec_ok = isinstance(a, ast.Call) and any(tg.func is not None and tg.func.qname == fi.qname for tg in w.resolve_call(w.types(fi), a)) and \
                 [norm(x) for x in a.args] == [cv] + flags and not a.keywords
-        guards = [g for (g, b) in enclosing_ifs(fi, calls[0]) if any(x is g for x in ast.walk(lp))] if calls else []
+        g_pairs = [(g, b) for (g, b) in enclosing_ifs(fi, calls[0]) if any(x is g for x in ast.walk(lp))] if calls else []
+        guards = [g for (g, b) in g_pairs]
         only_comment = len(guards) <= 1 and all(isinstance(g.test, ast.Compare) and len(g.test.ops) == 1 and "Comment" in norm(g.test)
                                                 and cv in norm(g.test) for g in guards)
-        bad = [x for x in ast.walk(lp) if isinstance(x, (ast.Break, ast.Continue, ast.Return))]
+        # `continue` is fine as the body of the comment guard clause (skip a comment); any other early exit is not
+        guard_bodies = {id(x) for g in guards for blk in (g.body, g.orelse) for s_ in blk for x in ast.walk(s_)}
+        bad = [x for x in ast.walk(lp) if isinstance(x, (ast.Break, ast.Return)) or (isinstance(x, ast.Continue) and id(x) not in guard_bodies)]
         rep.oblige(("R3", "attach"), ok and rec_ok and only_comment and not bad)
         if not ok:
             rep.add("R3", fi.qname, lp.iter, "sub-elements are not appended one by one through add_child (document order)", fi.loc(lp))
@@ -346,7 +354,7 @@ def run(ctx, rep):
             # polarity of the comment filter: a non-comment element must be attached
             t = guards[0].test
             is_not = isinstance(t, ast.Compare) and isinstance(t.ops[0], (ast.IsNot, ast.NotEq))
-            in_body = any(any(x is calls[0] for x in ast.walk(s)) for s in guards[0].body)
+            in_body = g_pairs[0][1]   # the side of the test on which the attachment is reached (guard clauses included)
             okp = is_not == in_body
             rep.oblige(("R3", "comment-polarity"), okp)
             if not okp:
@@ -386,10 +394,13 @@ def run(ctx, rep):
                         rep.add("R4", fi.qname, c, f"attribute name '{nm_}' {'reaches' if verdict else 'does not reach'} {m}; unqualified names "
                                 f"are attributes, Clark-qualified names are extras", fi.loc(c))
             ex = adds["add_extras"][0]
+            def is_fe_call(c_):
+                """a call that resolves to the prefixed-name helper (whatever it is called or wherever it lives now)"""
+                return isinstance(c_, ast.Call) and any(tg.func is not None and tg.func.qname == FE for tg in w.resolve_call(w.types(fi), c_))
             ok2 = ex.args and (isinstance(ex.args[0], ast.Name) and any(
-                isinstance(n, ast.Assign) and isinstance(n.targets[0], ast.Name) and n.targets[0].id == ex.args[0].id and isinstance(n.value, ast.Call)
-                and isinstance(n.value.func, ast.Name) and n.value.func.id == "_format_extras" and [norm(a).replace("_nsmap", "nsmap") for a in n.value.args] == [kv[0], f"{nodevar}.nsmap"]
-                for n in ast.walk(lp)) or (isinstance(ex.args[0], ast.Call) and isinstance(ex.args[0].func, ast.Name) and ex.args[0].func.id == "_format_extras"))
+                isinstance(n, ast.Assign) and isinstance(n.targets[0], ast.Name) and n.targets[0].id == ex.args[0].id and is_fe_call(n.value)
+                and [norm(a).replace("_nsmap", "nsmap") for a in n.value.args] == [kv[0], f"{nodevar}.nsmap"]
+                for n in ast.walk(lp)) or (is_fe_call(ex.args[0]) and [norm(a).replace("_nsmap", "nsmap") for a in ex.args[0].args] == [kv[0], f"{nodevar}.nsmap"]))
             rep.oblige(("R4", "format"), bool(ok2))
             if not ok2:
                 rep.add("R4", fi.qname, ex, "a qualified attribute is not stored under the name _format_extras(name, node.nsmap) gives it", fi.loc(ex))
